@@ -189,21 +189,33 @@ class Ctx:
     def regen(self, names):
         from translate import GENERATORS
         ok = True
+        own = list(names)
+        # Every check re-translates ALL Gen files from the current source, not only its own: a Props file
+        # may import models that depend on another property's Gen file, and that file must not be stale.
+        # A translator outside `names` that fails leaves a stub, so only checks whose build depends on it
+        # break (as broken-proof at the import), the others are unaffected.
+        others = [n for n in sorted(GENERATORS) if n not in own] if os.environ.get("VERIF_REGEN_ALL", "1") == "1" else []
         with Lock():
-            for name in names:
+            for name in own + others:
                 path = os.path.join(COQ, "Gen", name + ".v")
                 try:
                     text = GENERATORS[name](REPO)
                     write_if_changed(path, text)
-                    self.log(f"regen {name}: ok")
+                    if name in own:
+                        self.log(f"regen {name}: ok")
                 except Exception as e:   # fail closed
-                    ok = False
                     # make dependants fail to build rather than reuse a stale model
                     write_if_changed(path, "(* translator failed on this run *)\n"
                                      "Definition translator_failed : True := I.\n")
-                    self.broken.append({"kind": "broken-translator", "name": name,
-                                        "detail": f"{type(e).__name__}: {e}"})
-                    self.log(f"regen {name}: FAILED {type(e).__name__}: {e}")
+                    if name in own:
+                        ok = False
+                        self.broken.append({"kind": "broken-translator", "name": name,
+                                            "detail": f"{type(e).__name__}: {e}"})
+                        self.log(f"regen {name}: FAILED {type(e).__name__}: {e}")
+                    else:
+                        self.notes.append(f"translator {name} (not owned by this check) failed: "
+                                          f"{type(e).__name__}: {str(e)[:200]}")
+                        self.log(f"regen {name} (dependency of other checks): FAILED {type(e).__name__}")
         return ok
 
     # ------------------------------------------------------------------ stage 2: build
